@@ -46,7 +46,7 @@ def exc_issub(cls, target):
     """Is exception class `cls` (builtin class or RepoExc) a subclass of `target` (same kinds / tuple)?"""
     if isinstance(target, tuple):
         return any(exc_issub(cls, t) for t in target)
-    if cls is target:
+    if cls is target or (isinstance(cls, RepoExc) and isinstance(target, RepoExc) and cls.__name__ == target.__name__):
         return True
     if isinstance(cls, RepoExc):
         return any(exc_issub(b, target) for b in cls.bases)
@@ -209,7 +209,7 @@ _STDLIB_PURE = {   # side-effect-free stdlib helpers the repository imports by n
     ('itertools', 'repeat'): lambda x, n: [x] * n,
     ('itertools', 'islice'): lambda it, *a: list(_it.islice(it, *a)),
     ('itertools', 'zip_longest'): lambda *a, **k: list(_it.zip_longest(*a, **k)),
-    ('functools', 'reduce'): _ft.reduce,
+    ('functools', 'reduce'): _ft.reduce, ('functools', 'partial'): _ft.partial,
     ('operator', 'lt'): operator.lt, ('operator', 'gt'): operator.gt, ('operator', 'le'): operator.le,
     ('operator', 'ge'): operator.ge, ('operator', 'xor'): operator.xor,
 }
@@ -485,6 +485,9 @@ def module_consts(forest, modname, _stack=()):
             for a in st.names:
                 if a.name == 're':
                     env[a.asname or 're'] = _ReStub
+                elif a.name == 'math':
+                    import math as _math
+                    env[a.asname or 'math'] = Namespace('math', {'ceil': _math.ceil, 'floor': _math.floor})
                 elif a.name == 'sys':
                     import sys as _sys
                     env[a.asname or 'sys'] = Namespace('sys', {'maxsize': _sys.maxsize})
